@@ -113,6 +113,21 @@ struct Acc {
     known_hits: BTreeMap<String, u64>,
 }
 
+/// Crash journal (`VERIF_JOURNAL_DIR`): before a case is evaluated it is written, as a replay
+/// record, to `<dir>/<part>.<worker>.json`.  When the process under test brings the whole
+/// process down (abort, segmentation fault) the driver re-runs the binary with the journal on
+/// and replays each worker's last case in a process of its own to find the one that does it.
+fn journal<T: Serialize>(dir: &Option<String>, cfg: &RunCfg, worker: usize, case: &T) {
+    if let Some(d) = dir {
+        let rec = serde_json::json!({
+            "property": cfg.property, "part": cfg.part, "engine": cfg.engine,
+            "signature": "", "detail": "", "seed": cfg.seed,
+            "case": serde_json::to_value(case).unwrap_or(serde_json::Value::Null),
+        });
+        let _ = std::fs::write(format!("{}/{}.{}.json", d, cfg.part, worker), rec.to_string());
+    }
+}
+
 /// Runs one part.  `mk_state(worker)` builds the per-worker mutable state (a server, a shuttle
 /// runner, …); `test` must be a pure function of (code under test, case) as far as the engine
 /// allows.
@@ -155,10 +170,12 @@ where
                     let first_failure = std::cell::RefCell::new(String::new());
                     let n_local = std::cell::Cell::new(0u64);
                     let state_cell = std::cell::RefCell::new(&mut state);
+                    let journal_dir = std::env::var("VERIF_JOURNAL_DIR").ok();
                     let res = runner.run(&strategy, |case| {
                         if !failed_once.get() && shared.stop.load(Ordering::Relaxed) {
                             return Ok(());
                         }
+                        journal(&journal_dir, &cfg, w, &case);
                         let v = test(&mut **state_cell.borrow_mut(), &case);
                         PROGRESS.fetch_add(1, Ordering::Relaxed);
                         let mut local = local_cell.borrow_mut();
@@ -318,6 +335,7 @@ where
                 .spawn_scoped(scope, move || {
                     let mut state = mk_state(w);
                     let mut local = Acc::default();
+                    let journal_dir = std::env::var("VERIF_JOURNAL_DIR").ok();
                     loop {
                         let i = next.fetch_add(64, Ordering::Relaxed) as usize;
                         if i >= cases.len() {
@@ -325,6 +343,7 @@ where
                         }
                         for case in &cases[i..(i + 64).min(cases.len())] {
                             evals.fetch_add(1, Ordering::Relaxed);
+                            journal(&journal_dir, &cfg, w, case);
                             match test(&mut state, case) {
                                 Verdict::Pass(g) => {
                                     evals.fetch_add(g.extra_evals, Ordering::Relaxed);
